@@ -1097,6 +1097,70 @@ namespace Interp
 variable [Mode]
 open Typing
 
+/-! ### extension 2: the rules `i / a : S ⇒ r : S` -/
+@[simp] theorem wf_keyHash (s : List Nat) : WF (.atom .keyHash s) := by simp [WF, HasTy, checkVal, typeOf]
+@[simp] theorem wf_key (s : List Nat) : WF (.atom .key s) := by simp [WF, HasTy, checkVal, typeOf]
+
+/-- a result of a unary rule of extension 2 is a well-formed value of the type the typing rule assigns -/
+theorem unV_sound (env : Env) (i : Instr) (a r : Val) (_ : WF a) (h : Spec.unV env i a = .ok r) :
+    WF r ∧ unTy i (typeOf a) = some (typeOf r) := by
+  cases i <;> first | (simp [Spec.unV] at h; done) | skip
+  · -- NAT
+    cases a <;> simp [Spec.unV, Spec.natV] at h
+    subst h; simp [unTy, natTy, typeOf, wf_nat]
+  · -- BYTES
+    simp only [Spec.unV] at h
+    unfold Spec.bytesV at h
+    split at h
+    · split at h
+      · simp at h; subst h; simp [unTy, bytesTy, typeOf]
+      · simp at h
+    · simp at h; subst h; simp [unTy, bytesTy, typeOf]
+    · simp at h
+  · -- VOTING_POWER
+    simp only [Spec.unV] at h
+    unfold Spec.votingPowerV at h
+    split at h
+    · obtain ⟨h1, h2⟩ := numOk_sound _ _ r h
+      simp [unTy, votingPowerTy, typeOf, h1, h2]
+    · simp at h
+  · -- HASH_KEY
+    simp only [Spec.unV] at h
+    unfold Spec.hashKeyV at h
+    split at h
+    · simp at h; subst h; simp [unTy, hashKeyTy, typeOf]
+    · simp at h
+
+section
+variable (env : Env) (st st' : List Val) (hw : StackWF st)
+include hw
+
+/-- instructions of the form `f a : S → r : S` with a type function `tf` -/
+theorem sound_unop (i : Instr) (f : Val → Res Val) (tf : Ty → Option Ty)
+    (hs : ∀ a st, Spec.step env i (a :: st) = (f a).bind fun r => .ok (r :: st))
+    (hs0 : Spec.step env i [] = .stuck)
+    (ht : ∀ a s, Typing.step i (a :: s) = (tf a).map fun t => .ok (t :: s))
+    (hf : ∀ a r, WF a → f a = .ok r → WF r ∧ tf (typeOf a) = some (typeOf r))
+    (hev : Spec.step env i st = .ok st') :
+    StackWF st' ∧ Typing.step i (st.map typeOf) = some (.ok (st'.map typeOf)) := by
+  rcases st with _ | ⟨a, st⟩
+  · rw [hs0] at hev; cases hev
+  rw [stackWF_cons] at hw
+  rw [hs] at hev
+  cases hq : f a with
+  | stuck => simp [hq] at hev
+  | failed _ => simp [hq] at hev
+  | rtfail => simp [hq] at hev
+  | oof => simp [hq] at hev
+  | offguard => simp [hq] at hev
+  | ok r =>
+    simp only [hq, rbind_ok, Res.ok.injEq] at hev
+    subst hev
+    obtain ⟨h1, h2⟩ := hf a r hw.1 hq
+    simp [ht, h2, stackWF_cons, h1, hw.2]
+
+end
+
 /-- PUSH and LAMBDA need the static check of their literal; every other rule without sub-programs is sound as is -/
 def isLiteral : Instr → Bool
   | .PUSH _ _ | .LAMBDA _ _ _ => true
@@ -1181,5 +1245,18 @@ theorem step_sound (env : Env) (i : Instr) (st st' : List Val) (hw : StackWF st)
   case UNPAIRN n => exact sound_UNPAIRN env st st' hw n hev
   case GETN n => exact sound_GETN env st st' hw n hev
   case UPDATEN n => exact sound_UPDATEN env st st' hw n hev
+  case NEVER => exfalso; revert hev; rcases st with _ | ⟨a, st⟩ <;> simp [Spec.step]
+  case NAT =>
+    exact sound_unop env st st' hw .NAT (Spec.unV env .NAT) (unTy .NAT) (fun _ _ => rfl) rfl (fun _ _ => rfl)
+      (unV_sound env .NAT) hev
+  case BYTES =>
+    exact sound_unop env st st' hw .BYTES (Spec.unV env .BYTES) (unTy .BYTES) (fun _ _ => rfl) rfl (fun _ _ => rfl)
+      (unV_sound env .BYTES) hev
+  case VOTING_POWER =>
+    exact sound_unop env st st' hw .VOTING_POWER (Spec.unV env .VOTING_POWER) (unTy .VOTING_POWER) (fun _ _ => rfl) rfl
+      (fun _ _ => rfl) (unV_sound env .VOTING_POWER) hev
+  case HASH_KEY =>
+    exact sound_unop env st st' hw .HASH_KEY (Spec.unV env .HASH_KEY) (unTy .HASH_KEY) (fun _ _ => rfl) rfl
+      (fun _ _ => rfl) (unV_sound env .HASH_KEY) hev
 
 end Interp
